@@ -313,7 +313,9 @@ enum SctExp {
     Absent,
     /// EXT_TIME without SCT-High
     NoSct,
-    Us(u64),
+    /// the NTP timestamp as microseconds since the UNIX epoch, fraction truncated / rounded to nearest:
+    /// an independent receiver may do either, flute has to return one of the two
+    Us(u64, u64),
 }
 
 struct Spec {
@@ -366,7 +368,10 @@ fn spec_packet(d: &[u8]) -> Option<Spec> {
                 }
                 let this = match t.sct_hi {
                     None => SctExp::NoSct,
-                    Some(hi) => SctExp::Us(rd::ntp_to_micros_floor(hi, t.sct_low.unwrap_or(0))?),
+                    Some(hi) => {
+                        let lo = t.sct_low.unwrap_or(0);
+                        SctExp::Us(rd::ntp_to_micros_floor(hi, lo)?, rd::ntp_to_micros_round(hi, lo)?)
+                    }
                 };
                 if first_time {
                     sct = this;
@@ -463,12 +468,12 @@ fn check_spec_parse(d: &[u8], obs: &Sub<ParseObs>, o: &mut Oracle) {
     if po.fdt != want_fdt {
         o.fail(&cls("spec-parse-fdt", h), &format!("EXT_FDT: flute {:?} / RFC {:?}", po.fdt, want_fdt));
     }
-    let want_sct = match sp.sct {
-        SctExp::Absent | SctExp::NoSct => None,
-        SctExp::Us(us) => Some(us),
+    let (want_sct, alt_sct) = match sp.sct {
+        SctExp::Absent | SctExp::NoSct => (None, None),
+        SctExp::Us(floor, round) => (Some(floor), Some(round)),
     };
-    if po.sct != Sub::Ok(want_sct) {
-        o.fail(&cls("spec-parse-sct", h), &format!("sender current time: flute {:?} / RFC {:?} us", po.sct, want_sct));
+    if po.sct != Sub::Ok(want_sct) && po.sct != Sub::Ok(alt_sct) {
+        o.fail(&cls("spec-parse-sct", h), &format!("sender current time: flute {:?} / RFC {:?} us (rounded {:?})", po.sct, want_sct, alt_sct));
     }
     // P= used the EXT_FTI oti when present (m >= 1 there), the default m = 8 otherwise: `rfcdec` used the same m
     if let Sub::Ok(pid) = &po.pid {
